@@ -68,7 +68,11 @@ Fixpoint spec_run (fn : Z -> Z) (fs : list sfut) (ops : list (nat * cop)) : list
 
 (* A script set is admissible when every future is used by one client only, every client exists,
    and a call that waits for abort() has been aborted before anything waits for it (otherwise the
-   premise "the started functions terminate" of the property fails). *)
+   premise "the started functions terminate" of the property fails).  Calls that wait for abort()
+   are started by client 0 only and at most two of them are pending at a time: the pool has at
+   least three workers, so the pending ones can never occupy every worker while their owner is
+   blocked in a join of something queued behind them (the premise "do not wait on other futures"
+   read for the client that has to call abort()). *)
 Definition cop_fut (op : cop) : option nat :=
   match op with CStart f _ _ | CAbort f | CJoin f | CGet f | CCheck f => Some f | CPause => None end.
 
@@ -84,7 +88,10 @@ Fixpoint valid_from (ncl : nat) (st : list (option nat * bool)) (ops : list (nat
           (f <? length st)%nat &&
           match own with Some o => (o =? c)%nat | None => true end &&
           match op with
-          | CStart _ _ work => negb w3 && valid_from ncl (upd f (Some c, (work =? 3)%nat) st) rest
+          | CStart _ _ work =>
+              negb w3 &&
+              (if (work =? 3)%nat then (c =? 0)%nat && (length (filter (fun x => snd x) st) <? 2)%nat else true) &&
+              valid_from ncl (upd f (Some c, (work =? 3)%nat) st) rest
           | CAbort _ => valid_from ncl (upd f (Some c, false) st) rest
           | CJoin _ | CGet _ => negb w3 && valid_from ncl (upd f (Some c, w3) st) rest
           | _ => valid_from ncl (upd f (Some c, w3) st) rest
